@@ -513,6 +513,37 @@ fn main() {
             }
         }
         "specval" => specval::run(args[1].parse().unwrap(), args[2].parse().unwrap()),
+        "f32parse_batch" => {
+            // stdin: one hex-encoded utf8 string per line -> "bits=<hex>|err" per line
+            use std::io::BufRead;
+            for line in std::io::stdin().lock().lines() {
+                let s = String::from_utf8(unhex(line.unwrap().trim())).unwrap();
+                match f32::from_str(&s) {
+                    Ok(v) => println!("{:08x}", v.to_bits()),
+                    Err(_) => println!("err"),
+                }
+            }
+        }
+        "f32fmt_batch" => {
+            // stdin: one f32 bit pattern (hex) per line -> "<text> <bits of text parsed back>"
+            use std::io::BufRead;
+            for line in std::io::stdin().lock().lines() {
+                let v = f32::from_bits(u32::from_str_radix(line.unwrap().trim(), 16).unwrap());
+                let t = format!("{}", v);
+                let back = f32::from_str(&t).map(|x| format!("{:08x}", x.to_bits())).unwrap_or("err".into());
+                println!("{} {}", t, back);
+            }
+        }
+        "regex_batch" => {
+            // args[1] = pattern (hex); stdin: hex strings -> 1/0 per line
+            use std::io::BufRead;
+            let pat = String::from_utf8(unhex(&args[1])).unwrap();
+            let re = regex::Regex::new(&pat).unwrap();
+            for line in std::io::stdin().lock().lines() {
+                let s = String::from_utf8(unhex(line.unwrap().trim())).unwrap();
+                println!("{}", if re.is_match(&s) { 1 } else { 0 });
+            }
+        }
         "f32parse" => {
             // model validation S3/S4: f32 text <-> bits
             let s = String::from_utf8(unhex(&args[1])).unwrap();
